@@ -347,6 +347,10 @@ class SimSocket:
         net = self.net
         sim = net.sim
         sim.yield_()
+        peer = self._tx.rx_sock if self._tx is not None else None
+        gone = peer is not None and peer._closed and not self._tx.blackhole and self._sent_after_peer_close
+        if self._closed or self._tx is None or self._shut_wr or self._tx.reset or gone:
+            sim.record("send_fail", fd=self._fd)
         if self._closed:
             raise OSError(errno.EBADF, "Bad file descriptor")
         if self._tx is None:
@@ -356,7 +360,6 @@ class SimSocket:
         if self._tx.reset:
             raise ConnectionResetError(errno.ECONNRESET, "Connection reset by peer")
         data = bytes(data)
-        peer = self._tx.rx_sock
         if peer is not None and peer._closed and not self._tx.blackhole:
             # peer is gone: the first write is accepted, the RST that answers
             # it makes later operations fail
